@@ -35,6 +35,15 @@ Proof. exact cost_bound_literal. Qed.
 Theorem C07_default_ctx_once : once_ctx default_ctx.
 Proof. exact default_ctx_once. Qed.
 
+(** KNOWN FINDING K02: the hypothesis [once_ctx] cannot be dropped.  A host function whose
+    signature combines the all-arguments extractor with another extractor that has already
+    resolved an argument (here va : (This, Arguments), called in function style) evaluates that
+    argument again: a program with 2 call nodes and 3 invocations, in a context that is not
+    [once_ctx].  The witness replayed on the implementation (`ta(tag(1, 1))`) logs tag 1 twice. *)
+Theorem C07_once_refuted_for_mixed_arguments :
+  exists c e, no_comp e /\ ncalls e = 2 /\ loglen (eval c e) = 3 /\ ~ once_ctx c.
+Proof. exact once_refuted_for_mixed_arguments. Qed.
+
 (** A call's log: whatever the outcome, it is the initial log (the receiver's), followed by
     logs of argument results - at most the arguments' total - and at most one invocation. *)
 Theorem C07_call_order : forall name d this rs es log0, args_once (params d) = true ->
@@ -101,6 +110,7 @@ Print Assumptions C07_cost_bound.
 Print Assumptions C07_cost_bound_literal.
 Print Assumptions C07_cost_bound_partial.
 Print Assumptions C07_default_ctx_once.
+Print Assumptions C07_once_refuted_for_mixed_arguments.
 Print Assumptions C07_call_order.
 Print Assumptions C07_args_logged_in_order.
 Print Assumptions C07_binop_order.
